@@ -105,6 +105,15 @@ func newRlSys(r *vrt.Run, c rlCfg) *rlSys {
 		s.foreign[f] = "not a backup\n"
 		pre(10 * 24 * time.Hour)
 	}
+	s.open()
+	vrt.Settle()
+	return s
+}
+
+// open creates the logger on the (possibly already existing) current file, as a process
+// start would.
+func (s *rlSys) open() {
+	c := s.cfg
 	var rule RotateRule
 	if c.rule == "daily" {
 		rule = DefaultRotateRule(s.file, c.delim, c.days, c.gzip)
@@ -116,12 +125,11 @@ func newRlSys(r *vrt.Run, c rlCfg) *rlSys {
 	}
 	l, err := NewLogger(s.file, rule, c.gzip)
 	if err != nil {
-		r.Failf("NewLogger: %v", err)
+		s.r.Failf("NewLogger: %v", err)
 	}
 	s.l = l
+	now := vrt.Now()
 	s.startTs, s.marked = now, now
-	vrt.Settle()
-	return s
 }
 
 func readMaybeGz(name string) (string, bool) {
@@ -267,6 +275,13 @@ func (s *rlSys) apply(op string) bool {
 		if err != nil || n != len(rec) {
 			s.r.Failf("Write returned %d,%v", n, err)
 		}
+	case op == "reopen":
+		// the process restarts: the logger is closed and a new one opened on the same file
+		if err := s.l.Close(); err != nil {
+			s.r.Failf("Close: %v", err)
+		}
+		vrt.Settle()
+		s.open()
 	case op == "close":
 		if err := s.l.Close(); err != nil {
 			s.r.Failf("Close: %v", err)
@@ -291,7 +306,16 @@ func (s *rlSys) canon() string {
 		}
 	}
 	sort.Strings(parts)
-	return fmt.Sprintf("+%v|closed=%v|%v", vrt.Elapsed(), s.closed, parts)
+	// the logger's own bookkeeping (what it believes the file size, the next backup name and
+	// the last rotation mark are)
+	rot := ""
+	switch r := s.l.rule.(type) {
+	case *DailyRotateRule:
+		rot = r.rotatedTime
+	case *SizeLimitRotateRule:
+		rot = r.rotatedTime
+	}
+	return fmt.Sprintf("+%v|closed=%v|%v|size=%d|backup=%s|rot=%s", vrt.Elapsed(), s.closed, parts, s.l.currentSize, filepath.Base(s.l.backup), rot)
 }
 
 func TestVerifRotateLogger(t *testing.T) {
@@ -332,7 +356,7 @@ func TestVerifRotateLogger(t *testing.T) {
 			mine = append(mine, c)
 		}
 	}
-	ops := []string{"w3", "w8", "w30", "t1", "t86400", "t259200", "close"}
+	ops := []string{"w3", "w8", "w30", "t1", "t86400", "t259200", "reopen", "close"}
 	for i, c := range mine {
 		c := c
 		vrt.BFS(vrt.Options{Name: "rotatelogger/" + c.String(), Budget: vrt.FairBudget(len(mine) - i)}, depth, ops, func(r *vrt.Run, hist []string) vrt.Step {
